@@ -23,7 +23,8 @@ def script_for_format(rng, comments=None, trigger=None, nstmts=None,
         hints=rng.random() < 0.4,
         comment_quotes=(trigger == 'D8'))
     n = nstmts if nstmts is not None else rng.choice([1, 1, 1, 2, 3])
-    sc = grammar.make_script(rng, cfg, nstmts=n, layout=layout)
+    sc = grammar.make_script(rng, cfg, nstmts=n, layout=layout,
+                             tail_comments=True)
     return sc
 
 
@@ -74,3 +75,15 @@ def unquoted_region_has_newline_or_trailing_blank(text):
             if '\n' in v or '\r' in v:
                 return True
     return False
+
+
+def count_statements(text):
+    """Number of pieces of split() that contain SQL (a piece made only of
+    comments -- e.g. a comment behind the last ';' -- is not counted)."""
+    n = 0
+    for piece in sqlparse.split(text):
+        for tt, v in sqlparse.lexer.tokenize(piece):
+            if tt not in T.Whitespace and tt not in T.Comment:
+                n += 1
+                break
+    return n
